@@ -1,4 +1,5 @@
 import StraxModel.Lemmas.MailboxTerm
+import StraxModel.Lemmas.DividerProg
 /-
   C05 — a mailbox delivers every message exactly once, in order, to every subscriber.
 
@@ -198,6 +199,43 @@ theorem no_lost_wakeup (c : Config) (s : Sys) (h : Reachable c s) :
     (s.mb.writeFlag ≠ none → s.mb.canWrite = true → s.mb.writeFlag = some true) ∧
     (s.mb.fetchFlag ≠ none → s.mb.canFetch = true → s.mb.fetchFlag = some true) :=
   ⟨fun i sub hs => no_lost_wakeup_read c s h i sub hs, no_lost_wakeup_write c s h, no_lost_wakeup_fetch c s h⟩
+
+/-! ### multi-output dividers (`divide_outputs`, Model/Divider.lean) -/
+
+/-- every output mailbox of a divider, in every reachable state of every configuration (any kills, failing
+source, malformed dicts): the single-mailbox safety properties — capacity and exactly-once in-order delivery as
+a prefix property — hold for it and its subscribers -/
+theorem divide_delivery_prefix (c : DConfig) (s : DSys) (h : DReachable c s) (k : Nat) (o : Out)
+    (hk : s.outs[k]? = some o) :
+    (∀ cp, o.mb.cap = some cp → o.mb.heap.length ≤ cp) ∧
+    ∀ (i : Nat) (sub : Sub) (r : Reader), o.mb.subs[i]? = some sub → o.readers[i]? = some r →
+      Msg.stop ∉ r.got ∧ r.got ++ tailOf r.pc = inOrder o.sent sub.next := by
+  have := (DInv.reachable h).out k o hk
+  exact ⟨this.mb.capOk, this.rd.deliv⟩
+
+/-- **divide_delivery**: for a divider configuration inside the domain (`DConfig.valid`: every dict has one
+component per output and none is the end marker, the source does not raise, nobody calls `kill`, at least one
+output), in every reachable state in which all threads have ended, every subscriber of every output mailbox has
+been handed exactly that output's component of every dict, in order, and has ended on the end marker -/
+theorem divide_delivery (c : DConfig) (hv : c.valid = true) (s : DSys) (h : DReachable c s) (hf : s.final = true)
+    (k : Nat) (o : Out) (hk : s.outs[k]? = some o) (i : Nat) (r : Reader) (hr : o.readers[i]? = some r) :
+    r.got = compOf k c.prog ∧ ∃ rest, r.pc = .done rest :=
+  divide_delivery_core hv h hf k o hk i r hr
+
+/-- two outputs (the second with two subscribers), two dicts, capacity 1, eager -/
+def exDiv : DConfig :=
+  { cap := some 1, lazy := false, gateRule := .hasMsg, outs := [([true], false), ([true, false], false)],
+    prog := [.item [.plain 10, .plain 20], .item [.plain 11, .plain 21]], workers := [], killers := [] }
+
+example : exDiv.valid = true := by decide
+
+/-- `divide_delivery` is not vacuous: a complete run of `exDiv` -/
+example : ∃ s, drun? (dinit exDiv)
+      [.divider, .divider, .divider, .reader 0 0, .reader 1 0, .reader 1 1, .divider, .divider, .divider,
+       .reader 0 0, .reader 1 0, .reader 1 1, .divider, .divider, .divider, .reader 0 0, .reader 1 0, .reader 1 1] = some s ∧
+    s.final = true ∧ s.outs.map (fun o => o.readers.map (·.got)) =
+      [[[.plain 10, .plain 11]], [[.plain 20, .plain 21], [.plain 20, .plain 21]]] := by
+  decide
 
 /-! ### non-vacuity: concrete reachable states -/
 
